@@ -134,6 +134,7 @@ structure Loc where
   stage : Nat := 0        -- receiver: 0 = plain try_recv, 1 / 2 = first / second try_recv of a poll
   cur : W := .empty       -- last loaded state word
   res : Res := .ok        -- result to return once the trailing Drop is done
+  q : Bool := false       -- ghost: when this receive was called the state was CLOSED, or EMPTY with sender_count 0
 deriving Repr, DecidableEq
 
 structure State where
@@ -160,6 +161,8 @@ structure State where
   closer : Option Nat          -- sender that took sender_count to 0 and has not yet tried EMPTY→CLOSED
   armed : Bool                 -- the registered waker belongs to a poll that has answered Pending
   reopened : Bool              -- some clone was made from a sender handle that had already been closed
+  discRace : Bool              -- the receiver answered Disconnected although its CAS EMPTY→CLOSED failed (stale EMPTY)
+  rClosedIt : Bool             -- the receiver itself moved the state word EMPTY→CLOSED
   sval : Nat → Option Nat
   sres : Nat → Option Res
   mover : Option Nat
@@ -176,7 +179,7 @@ def init (progS : Nat → List Op) (progR : List Op) : State :=
     closed := fun _ => false, tok := fun _ => false, fwakes := fun _ => 0, fpend := fun _ => false,
     freed := false, nextH := 1, gone := fun _ => false, loc := fun _ => {},
     prog := fun a => match a with | .S 0 => progS 0 | .S _ => [] | .R => progR,
-    progS := progS, dec := fun _ => false, writer := none, taker := none, closer := none, armed := false, reopened := false,
+    progS := progS, dec := fun _ => false, writer := none, taker := none, closer := none, armed := false, reopened := false, discRace := false, rClosedIt := false,
     sval := fun _ => none, sres := fun _ => none, mover := none, moved := [], received := [], dropped := [],
     results := fun _ => [] }
 
@@ -194,6 +197,9 @@ def Ag.idx : Ag → Nat
 def Ag.isS : Ag → Bool
   | .S _ => true
   | .R => false
+
+/-- nothing was sent and nothing can be: CLOSED, or EMPTY with every sender handle closed / dropped -/
+def quiet (s : State) : Bool := decide (s.st = .closed ∨ (s.scount = 0 ∧ s.st = .empty))
 
 /-! ### continuations -/
 
@@ -241,10 +247,10 @@ def stepCall (s : State) (a : Ag) : Option State :=
     | .isClosed, .R => some { s1 with loc := upd s.loc a { k := .isClosed, m := .icLdState } }
     | .close, _ => some { s1 with loc := upd s.loc a { k := .close, m := .cCasOwn } }
     | .drop, _ => some { s1 with loc := upd s.loc a { k := .drop, m := .dSwapOwn } }
-    | .tryRecv, .R => some { s1 with loc := upd s.loc a { k := .tryRecv, m := .rLdOwn, stage := 0 } }
-    | .recv t, .R => some { s1 with loc := upd s.loc a { k := .recv t, m := .rLdOwn, stage := 1 } }
+    | .tryRecv, .R => some { s1 with loc := upd s.loc a { k := .tryRecv, m := .rLdOwn, stage := 0, q := quiet s } }
+    | .recv t, .R => some { s1 with loc := upd s.loc a { k := .recv t, m := .rLdOwn, stage := 1, q := quiet s } }
     | .poll f, .R =>
-      if s.fpend f then some { s1 with fwakes := updN s.fwakes f 0, loc := upd s.loc a { k := .poll f, m := .rLdOwn, stage := 1 } }
+      if s.fpend f then some { s1 with fwakes := updN s.fwakes f 0, loc := upd s.loc a { k := .poll f, m := .rLdOwn, stage := 1, q := quiet s } }
       else none
     | .mkfut f, .R =>
       if s.fpend f then none
@@ -349,7 +355,7 @@ def stepX (s : State) (a : Ag) : Option State :=
   | .ciStRdrop => if a ≠ .R then none else some { s with rdrop := true, loc := upd s.loc a { l with m := .ciCasEC } }     -- store(true, Release)
   | .ciCasEC =>                                   -- CAS EMPTY → CLOSED (AcqRel / Relaxed)
     if a ≠ .R then none else
-    if s.st = .empty then some { s with st := .closed, loc := upd s.loc a { l with m := .ciCasST } }
+    if s.st = .empty then some { s with st := .closed, rClosedIt := true, loc := upd s.loc a { l with m := .ciCasST } }
     else some (setLoc s a { l with m := .ciCasST })
   | .ciCasST =>                                   -- CAS SENT → TAKEN (AcqRel / Relaxed)
     if a ≠ .R then none else
@@ -426,8 +432,8 @@ def stepTry2 (s : State) (a : Ag) : Option State :=
   | .tLdCount =>                                  -- EMPTY: sender_count.load(Acquire) == 0
     if s.scount = 0 then some (setLoc s a { l with m := .tCasEC }) else some (afterTry s a l .empty)
   | .tCasEC =>                                    -- CAS EMPTY → CLOSED (Relaxed / Relaxed), result ignored
-    if s.st = .empty then some (afterTry { s with st := .closed } a l .disc)
-    else some (afterTry s a l .disc)
+    if s.st = .empty then some (afterTry { s with st := .closed, rClosedIt := true } a l .disc)
+    else some (afterTry { s with discRace := true } a l .disc)
   | _ => none
 
 /-- `OneShotShared::poll_recv` around its two tries; `park` of the executor -/
@@ -445,8 +451,8 @@ def stepPoll (s : State) (a : Ag) : Option State :=
   | .pLdCountB =>                                 -- cur == EMPTY && sender_count.load(Acquire) == 0
     if s.scount = 0 then some (setLoc s a { l with m := .pCasEC }) else some (setLoc s a { l with m := .pReg })
   | .pCasEC =>                                    -- CAS EMPTY → CLOSED (Relaxed / Relaxed), result ignored
-    if s.st = .empty then some { s with st := .closed, loc := upd s.loc a { l with m := .ret .disc } }
-    else some (setLoc s a { l with m := .ret .disc })
+    if s.st = .empty then some { s with st := .closed, rClosedIt := true, loc := upd s.loc a { l with m := .ret .disc } }
+    else some { s with discRace := true, loc := upd s.loc a { l with m := .ret .disc } }
   | .pReg =>                                      -- receiver_waker.register(cx.waker())
     match l.k with
     | .recv t => some { s with waker := some (.task t), armed := false, loc := upd s.loc a { l with stage := 2, m := .tLdState } }
